@@ -278,7 +278,41 @@ def r17_7(ctx):
     ctx.ob("R17.7", "namespace-map-insert-records-a-binding", bad is None and k >= 1, bad or "insert(name) stores Some(name.ns) under name.prefix on every path", "xml5ever tree_builder NamespaceMap::insert")
 
 
+def r17_8(ctx):
+    """find_or_insert_ns(name): a name that has a prefix or a namespace and whose binding is not in force (find_uri false) gets a
+    binding registered in the innermost scope - whatever the prefix or the namespace is; the only names for which nothing is
+    registered are those with neither prefix nor namespace and those already bound"""
+    key, pcs = nfq.cells(ctx, AREA, "::find_or_insert_ns")
+    bad = None
+    k = 0
+    for pc in nfq.feasible(pcs):
+        g = pc["guards"]
+        names = nfq.names(pc)
+        inserted = any(a.endswith(".insert") for a in names)
+        pref = gval(g, "p1.prefix matches Some(_)")
+        nons = gval(g, "p1.ns.is_empty()")
+        bound = [v for x, v in g.items() if re.fullmatch(r"self\.find_uri\(p1\)(#\d+)?", x)]
+        other = [x for x in g if not re.fullmatch(r"(p1\.prefix matches Some\(_\)|p1\.ns\.is_empty\(\)|self\.find_uri\(p1\)|self\.namespace_stack\.0\.last_mut\(\) matches Some\(_\))(#\d+)?", x)]
+        if other:
+            bad = "whether a binding is registered depends on %s: a name in that case is written with a prefix (or in a namespace) that no xmlns attribute declares" % [x[:60] for x in other][:2]
+            continue
+        needs = (pref is True or nons is False) and bound == [False]
+        k += 1
+        has_scope = not any((not v) and "last_mut() matches Some" in x for x, v in g.items())
+        if needs and has_scope and not inserted:
+            bad = "a name with a prefix or namespace that is not bound gets no binding registered"
+        if not needs and inserted:
+            bad = "a binding is registered for a name that needs none"
+    ctx.ob("R17.8", "find_or_insert_ns-registers-every-unbound-name", bad is None and k >= 5, bad or "%d paths: registered iff (prefix or namespace) and not yet bound" % k, "xml5ever serialize find_or_insert_ns")
+
+
 def run(ctx):
+    ctx.rule("R17.9", "the tokenizer takes attribute value characters verbatim (no folding of line breaks or other characters inside a value)")
+    from . import tokrules as _trv
+    for _w in ('xml',):
+        ctx.guard("R17.9", "attr-verbatim/" + _w, lambda _w=_w: _trv.attr_values_kept_verbatim(ctx, "R17.9", _w))
+    ctx.rule("R17.8", "find_or_insert_ns registers a binding for every name with a prefix or namespace that is not bound yet, whatever the namespace")
+    ctx.guard("R17.8", "register", lambda: r17_8(ctx))
     ctx.rule("R17.7", "find_uri: the innermost binding of a prefix decides; NamespaceMap::insert always records a binding")
     ctx.guard("R17.7", "scopes", lambda: r17_7(ctx))
     ctx.rule("R17.6", "an unprefixed element in no namespace un-declares an inherited default namespace")
